@@ -16,7 +16,21 @@ type composer struct {
 	indexes map[string]reflect.StructField
 }
 
-func indexType(rt reflect.Type) (im map[string]reflect.StructField) {
+func indexType(rt reflect.Type) map[string]reflect.StructField {
+	return indexEmbedded(rt, nil)
+}
+
+// indexEmbedded is indexType for a struct reached through the embedded types
+// in outer. A type that embeds itself (type T struct{ *T; X int }, or two
+// types embedding pointers to each other) is not entered again: Go promotes
+// the shallowest field of a name, so the inner occurrence adds nothing.
+func indexEmbedded(rt reflect.Type, outer []reflect.Type) (im map[string]reflect.StructField) {
+	for _, ot := range outer {
+		if ot == rt {
+			return nil
+		}
+	}
+	outer = append(outer, rt)
 	i := rt.NumField()
 	if 0 < i {
 		im = map[string]reflect.StructField{}
@@ -30,7 +44,7 @@ func indexType(rt reflect.Type) (im map[string]reflect.StructField) {
 				et = et.Elem() // an embedded pointer: its fields are reached through it
 			}
 			if f.Anonymous && et.Kind() == reflect.Struct {
-				fim := indexType(et)
+				fim := indexEmbedded(et, outer)
 				// prepend index and add to im
 				for k := range fim {
 					ff := fim[k]
